@@ -8,7 +8,7 @@
   of its ranks holds exactly `S` (`solidFor`); `support votes S` is the number of such votes.  A refusal
   (`Err.notImplemented`, unresolved tie) is an allowed outcome, so the theorems speak about `.ok` outcomes.
 -/
-import VotelibProofs.Lemmas.STVMutual
+import VotelibProofs.Lemmas.STVPsc
 import VotelibModel.Gen.Quota
 namespace VL.C04
 open VL VL.STV
@@ -91,10 +91,11 @@ theorem majority_first_choice_wins {E : Engine} (hE : EngineOK E) {cfg : Cfg} {v
 
 /-- **Mutual majority.**  In a single-seat count (`eliminate_step = -1`, any transferer meeting the
     specification, a quota of at least half the votes), if the ballots that rank exactly the candidates `S`
-    above everyone else hold more than half of all votes cast — and none of these ballots has a shared rank —
-    then the winner, whenever one is returned, is a member of `S`. -/
+    above everyone else hold more than half of all votes cast — through ranks that are not shared (`solidStrict`,
+    see `solidStrict_iff`; in particular ballots without any shared rank) — then the winner, whenever one is
+    returned, is a member of `S`. -/
 theorem mutual_majority {E : Engine} (hE : EngineOK E) {cfg : Cfg} {votes : Profile} (hwf : WFVotes votes)
-    {S : List Cand} (hS : S ≠ []) (hstrict : ∀ bw ∈ votes, solidFor bw.1 S = true → noShared bw.1 = true)
+    {S : List Cand} (hS : S ≠ []) (hstrict : ∀ bw ∈ votes, solidFor bw.1 S = true → solidStrict bw.1 S = true)
     (hmaj : totalVotes votes / 2 < support votes S) (hstep : cfg.step = some (-1))
     (hq : QuotaAtLeastHalf cfg votes) {ds : List Draw} {l : List Cand}
     (h : selectorEvaluate E cfg votes 1 ds = .ok l) : ∃ c ∈ S, l = [c] := by
@@ -177,6 +178,117 @@ theorem no_infinite_loop {votes : Profile} {cfg : Cfg} {n : Nat} (hstep : cfg.st
     selectorEvaluate gregory cfg votes n ds ≠ .error .votingSystemError := by
   rcases selector_total ⟨hstep, hmand, hq⟩ hn ds with h | ⟨l, h⟩ <;> rw [h] <;> simp
 
+/-! ## proportionality for solid coalitions -/
+
+/-- both transferers lower any class of papers of a pile by at most what they subtract (used below) -/
+theorem gregory_sub_bound : SubBound gregory := gregory_subBound
+theorem hare_sub_bound : SubBound hare := hare_subBound
+
+/-- **Proportionality for solid coalitions (any number of seats).**  Selector form, `eliminate_step = -1`,
+    `accept_quota_equal`, any transferer meeting the specification (Gregory, Hare under the draw contract), a
+    positive quota `q` with `(n+1)·q > votes cast` (Droop, Hare).  If the ballots that rank exactly the
+    candidates `S` above everyone else — doing so through ranks that are not shared (`solidStrict`; shared ranks
+    further down the ballot are allowed) — hold at least `k` quotas, then every returned list contains at least
+    `k` members of `S`, or all of `S`. -/
+theorem psc_general {E : Engine} (hE : EngineOK E) (hB : SubBound E) {cfg : Cfg} {votes : Profile} {n : Nat}
+    (hwf : WFVotes votes) (hstep : cfg.step = some (-1)) (heq : cfg.acceptEqual = true)
+    {q : Rat} (hquota : computeQuota cfg (totalVotes votes) n = some q) (hqpos : 0 < q)
+    (hdroop : totalVotes votes < ((n : Rat) + 1) * q)
+    {S : List Cand} (hS : S.Nodup) (hne : S ≠ [])
+    (hstrict : ∀ bw ∈ votes, solidFor bw.1 S = true → solidStrict bw.1 S = true)
+    {k : Nat} (hk : (k : Rat) * q ≤ support votes S)
+    {ds : List Draw} {l : List Cand} (h : selectorEvaluate E cfg votes n ds = .ok l) :
+    min k S.length ≤ electedIn l S :=
+  psc_selector hE hB ⟨hwf, hstrict, hS, hne, hstep, heq, hquota, hqpos, hdroop, hk⟩ h
+
+/-- what `solidStrict` asks: the ranks through which the ballot is solid for `S` are single candidates -/
+theorem solidStrict_iff {b : Ballot} {S : List Cand} :
+    solidStrict b S = true ↔ ∃ j ≤ b.length, (∀ x, x ∈ ballotCands (b.take j) ↔ x ∈ S) ∧
+      ∀ it ∈ b.take j, ∃ c, it = RankItem.one c := by
+  unfold solidStrict
+  rw [List.any_eq_true]
+  constructor
+  · rintro ⟨j, hj, h⟩
+    rw [Bool.and_eq_true] at h
+    refine ⟨j, by simpa [Nat.lt_succ_iff] using hj, sameSet_iff.mp h.1, ?_⟩
+    intro it hit
+    have := (List.all_eq_true.mp h.2) it hit
+    cases it with
+    | one c => exact ⟨c, rfl⟩
+    | shared cs => simp [isOne] at this
+  · rintro ⟨j, hj, h1, h2⟩
+    refine ⟨j, by simpa [Nat.lt_succ_iff] using hj, ?_⟩
+    rw [Bool.and_eq_true]
+    refine ⟨sameSet_iff.mpr h1, List.all_eq_true.mpr ?_⟩
+    intro it hit
+    obtain ⟨c, rfl⟩ := h2 it hit
+    rfl
+
+/-- ballots without any shared rank qualify -/
+theorem solidStrict_of_no_shared_rank {b : Ballot} {S : List Cand} (hn : noShared b = true)
+    (hs : solidFor b S = true) : solidStrict b S = true := solidStrict_of_noShared hn hs
+
+/-- the Droop quota exceeds `votes / (n + 1)` -/
+theorem droop_exceeds {cfg : Cfg} (hc : cfg.quota = some Gen.Quota.droop) {votes : Profile} (hwf : WFVotes votes)
+    {n : Nat} {q : Rat} (hq : computeQuota cfg (totalVotes votes) n = some q) :
+    totalVotes votes < ((n : Rat) + 1) * q := by
+  unfold computeQuota at hq
+  rw [hc] at hq
+  simp only at hq
+  split at hq
+  · injection hq with hq
+    subst hq
+    have hv := totalVotes_nonneg hwf
+    have hn1 : (0 : Rat) < (n : Rat) + 1 := by positivity
+    have h2 : (0 : Rat) ≤ totalVotes votes / (((n + 1 : Nat) : Nat) : Rat) := div_nonneg hv (Nat.cast_nonneg _)
+    unfold Gen.Quota.droop Py.pyInt
+    rw [if_pos h2]
+    have := Rat.lt_floor_add_one (totalVotes votes / (((n + 1 : Nat) : Nat) : Rat))
+    push_cast at this ⊢
+    rw [div_lt_iff₀ hn1] at this
+    linarith
+  · cases hq
+
+theorem hare_exceeds {cfg : Cfg} (hc : cfg.quota = some Gen.Quota.hare) {votes : Profile} (hwf : WFVotes votes)
+    {n : Nat} {q : Rat} (hq : computeQuota cfg (totalVotes votes) n = some q) :
+    totalVotes votes < ((n : Rat) + 1) * q := by
+  unfold computeQuota at hq
+  rw [hc] at hq
+  simp only at hq
+  split at hq
+  · rename_i hne
+    injection hq with hq
+    subst hq
+    have hv := totalVotes_nonneg hwf
+    have hpos : 0 < totalVotes votes := lt_of_le_of_ne hv (Ne.symm hne.1)
+    have hn : (0 : Rat) < (n : Rat) := by exact_mod_cast Nat.pos_of_ne_zero hne.2
+    unfold Gen.Quota.hare
+    rw [← mul_div_assoc, lt_div_iff₀ hn]
+    nlinarith
+  · cases hq
+
+/-- **Droop proportionality for solid coalitions**, the default configuration of `TransferableVoteSelector` -/
+theorem psc_droop {E : Engine} (hE : EngineOK E) (hB : SubBound E) {cfg : Cfg} {votes : Profile} {n : Nat}
+    (hwf : WFVotes votes) (hstep : cfg.step = some (-1)) (heq : cfg.acceptEqual = true)
+    (hc : cfg.quota = some Gen.Quota.droop) {q : Rat} (hquota : computeQuota cfg (totalVotes votes) n = some q)
+    {S : List Cand} (hS : S.Nodup) (hne : S ≠ [])
+    (hstrict : ∀ bw ∈ votes, solidFor bw.1 S = true → solidStrict bw.1 S = true)
+    {k : Nat} (hk : (k : Rat) * q ≤ support votes S)
+    {ds : List Draw} {l : List Cand} (h : selectorEvaluate E cfg votes n ds = .ok l) :
+    min k S.length ≤ electedIn l S :=
+  psc_general hE hB hwf hstep heq hquota (droop_positive hc hwf n q hquota) (droop_exceeds hc hwf hquota) hS hne hstrict hk h
+
+/-- … and so every outcome on a profile without shared ranks passes the verified checker -/
+theorem psc_check_passes {E : Engine} (hE : EngineOK E) (hB : SubBound E) {cfg : Cfg} {votes : Profile} {n : Nat}
+    (hwf : WFVotes votes) (hstep : cfg.step = some (-1)) (heq : cfg.acceptEqual = true)
+    {q : Rat} (hquota : computeQuota cfg (totalVotes votes) n = some q) (hqpos : 0 < q)
+    (hdroop : totalVotes votes < ((n : Rat) + 1) * q) (hns : ∀ bw ∈ votes, noShared bw.1 = true)
+    {ds : List Draw} {l : List Cand} (h : selectorEvaluate E cfg votes n ds = .ok l) :
+    pscCheck votes q l = true :=
+  (pscCheck_sound_complete hqpos hwf l).mpr (fun _ hS hne _ hk =>
+    psc_general hE hB hwf hstep heq hquota hqpos hdroop hS hne
+      (fun bw hbw hs => solidStrict_of_noShared (hns bw hbw) hs) hk h)
+
 /-! ## what is known to fail: coalitions whose supporters share a rank inside the coalition -/
 
 section Witness
@@ -218,11 +330,24 @@ example : pscCheck mVotes 6 [0] = true ∧ pscCheck mVotes 6 [1] = false := by d
 /-- a majority coalition {a, b} (a>b>c ×3, b>a>c ×3 of 11) against c with 5 first preferences: b wins -/
 def cVotes : Profile := [([.one 0, .one 1, .one 2], 3), ([.one 1, .one 0, .one 2], 3), ([.one 2], 5)]
 example : totalVotes cVotes / 2 < support cVotes [0, 1] ∧
-    (∀ bw ∈ cVotes, solidFor bw.1 [0, 1] = true → noShared bw.1 = true) ∧
+    (∀ bw ∈ cVotes, solidFor bw.1 [0, 1] = true → solidStrict bw.1 [0, 1] = true) ∧
     selectorEvaluate gregory wCfg cVotes 1 [] = .error .notImplemented := by decide +kernel
 def cVotes2 : Profile := [([.one 0, .one 1, .one 2], 4), ([.one 1, .one 0, .one 2], 3), ([.one 2], 6)]
 example : totalVotes cVotes2 / 2 < support cVotes2 [0, 1] ∧ firstPrefTotal cVotes2 2 = 6 ∧
     selectorEvaluate gregory wCfg cVotes2 1 [] = .ok [0] := by decide +kernel
+/-- two seats, Droop quota 7; the coalition {a, b} is solidly supported by 7 votes = one quota and has two
+    members: exactly one of them (a) is seated -/
+def pVotes : Profile :=
+  [([.one 0, .one 1, .one 2], 4), ([.one 1, .one 0, .one 2], 3), ([.one 2, .one 3], 5), ([.one 3], 6), ([.one 4, .one 3], 2)]
+example : computeQuota wCfg (totalVotes pVotes) 2 = some 7 ∧ ((1 : Nat) : Rat) * 7 ≤ support pVotes [0, 1] ∧
+    (∀ bw ∈ pVotes, solidFor bw.1 [0, 1] = true → solidStrict bw.1 [0, 1] = true) ∧
+    selectorEvaluate gregory wCfg pVotes 2 [] = .ok [3, 0] ∧ electedIn [3, 0] [0, 1] = 1 := by decide +kernel
+/-- a supporter of {a, b} with a shared rank *below* the coalition: covered by `psc_general`, not by `noShared` -/
+def qVotes : Profile := [([.one 0, .one 1, .shared [2, 3]], 7), ([.one 2], 5), ([.one 3, .one 2], 4)]
+example : computeQuota wCfg (totalVotes qVotes) 2 = some 6 ∧ ((1 : Nat) : Rat) * 6 ≤ support qVotes [0, 1] ∧
+    (∀ bw ∈ qVotes, solidFor bw.1 [0, 1] = true → solidStrict bw.1 [0, 1] = true) ∧
+    (∃ bw ∈ qVotes, solidFor bw.1 [0, 1] = true ∧ noShared bw.1 = false) ∧
+    selectorEvaluate gregory wCfg qVotes 2 [] = .ok [0, 2] := by decide +kernel
 /-- the profile on which the count stalled before the repair b992cbb: `{('c','a'):2, ('b',):8}`, two seats -/
 def lVotes : Profile := [([.one 2, .one 0], 2), ([.one 1], 8)]
 example : 2 ≤ (allRanked lVotes).length ∧ selectorEvaluate gregory wCfg lVotes 2 [] = .ok [1, 2] := by decide +kernel
